@@ -867,6 +867,17 @@ namespace ip {
 			case aux::packet::type_t::error:
 			case aux::packet::type_t::payload:
 			{
+				// the acceptor was closed (or could not attach the connection)
+				// while our connect was waiting in its queue
+				if (p.type == aux::packet::type_t::error && m_connect_handler
+					&& p.channel && p.channel == m_channel)
+				{
+					post(m_io_service, aux::make_malloc(std::bind(std::move(m_connect_handler), p.ec)));
+					m_connect_handler = nullptr;
+					m_channel.reset();
+					return;
+				}
+
 				aux::packet ack;
 				ack.type = aux::packet::type_t::ack;
 				ack.seq_nr = p.seq_nr;
